@@ -27,6 +27,15 @@ func opbCons(r *rand.Rand, n, W int) gen.M {
 	}
 	rhs := sumNeg - 1 + r.Intn(sumPos-sumNeg+3)
 	kind := []string{"gteq", "gteq", "eq", "lteq"}[r.Intn(4)]
+	if r.Intn(4) == 0 { // all coefficients positive, in any order (the usual shape of benchmark files)
+		sumPos = 0
+		for i := range w {
+			w[i] = 1 + r.Intn(W)
+			sumPos += w[i]
+		}
+		rhs = r.Intn(sumPos + 1)
+		kind = []string{"eq", "gteq"}[r.Intn(2)]
+	}
 	return gen.Ctor(kind, lits, w, rhs)
 }
 
@@ -123,6 +132,12 @@ func init() {
 				}
 				printers := []string{"pb.CNF", "pb.PBString", "solver.PBString", "explain.CNF"}
 				p := printers[r.Intn(len(printers))]
+				solveFirst := r.Intn(2) == 0
+				if r.Intn(5) == 0 { // the solver's state after a search that learned clauses
+					nv := 6 + r.Intn(3)
+					front, n, cons = "slicenb", nv, gen.ClauseCtors(gen.RandKSAT(r, nv, int(3.9*float64(nv))+r.Intn(4), 3))
+					p, solveFirst = "solver.PBString", true
+				}
 				if p == "explain.CNF" {
 					nv := 1 + r.Intn(6)
 					clauses := gen.RandCNF(r, nv, r.Intn(3*nv+1), 3, false)
@@ -135,7 +150,7 @@ func init() {
 				if hasObj {
 					obj = gen.RandObj(r, n, 0, 3)
 				}
-				c := gen.APICase(front, n, false, cons, hasObj, obj, fmtCfg(r, 0), []gen.M{{"op": "print", "printer": p, "solveFirst": r.Intn(2) == 0}})
+				c := gen.APICase(front, n, false, cons, hasObj, obj, fmtCfg(r, 0), []gen.M{{"op": "print", "printer": p, "solveFirst": solveFirst}})
 				c["drv"] = "fmt"
 				c["kind"] = "api"
 				if hasObj && r.Intn(5) == 0 {
